@@ -28,12 +28,13 @@ namespace {
 
 struct Sched {   // producer / consumer schedule
   int part = 1, pk = 1024; uint64_t pseed = 1;   // partition of N into wrote() calls: 0 one call, 1 fixed k, 2 random <= k, 3 all ones (bounded), 4 block-boundary sized
+  int direct = 0;                                 // 1: packets taken straight from vorbis_analysis(&vb,&op) (the interface for unmanaged encodes) instead of through the bitrate manager's queue
   int drain = 0, m = 1, one = 0;                  // drain: 0 after every write, 1 every m writes, 2 only at the end; one: 1 = one block per drain opportunity
 };
 
 struct EncSetup {
   int ch = 2; long rate = 44100; int how = 0;     // 0 init_vbr, 1 init(avg only), 2 init(max,nom,min), 3 init(cbr), 4 setup_vbr+setup_init, 5 setup_managed+ctl+setup_init
-  double q = 0.4; long nom = 128000, mx = -1, mn = -1; long reservoir = -1; double bias = -1; int ctl = 0;
+  double q = 0.4; long nom = 128000, mx = -1, mn = -1; long reservoir = -1; double bias = -1000; /* unset */ int ctl = 0;
 };
 
 struct EncRun {
@@ -42,7 +43,7 @@ struct EncRun {
   [[noreturn]] void fail(const std::string &site, const std::string &sym, const std::string &detail, std::map<std::string, std::string> facts = {}) { SimViolation v; v.prop = prop; v.cls = prop + "/" + site + "/" + sym; v.detail = detail; v.facts = facts; throw v; }
   void check(bool c, const std::string &site, const std::string &sym, const std::string &detail, std::map<std::string, std::string> facts = {}) { if (!c) fail(site, sym, detail, facts); }
 
-  static EncSetup setup_from(const Rec &r) { EncSetup e; e.ch = (int)r.i("ch", 2); e.rate = r.i("rate", 44100); e.how = (int)r.i("how", 0); e.q = r.f("q", 0.4); e.nom = r.i("nom", 128000); e.mx = r.i("max", -1); e.mn = r.i("min", -1); e.reservoir = r.i("resv", -1); e.bias = r.f("bias", -1); e.ctl = (int)r.i("ctl", 0); return e; }
+  static EncSetup setup_from(const Rec &r) { EncSetup e; e.ch = (int)r.i("ch", 2); e.rate = r.i("rate", 44100); e.how = (int)r.i("how", 0); e.q = r.f("q", 0.4); e.nom = r.i("nom", 128000); e.mx = r.i("max", -1); e.mn = r.i("min", -1); e.reservoir = r.i("resv", -1); e.bias = r.f("bias", -1000); e.ctl = (int)r.i("ctl", 0); return e; }
 
   // returns the library's return code; vi is initialised (vorbis_info_init) in any case
   int do_setup(vorbis_info &vi, const EncSetup &e, struct ovectl_ratemanage2_arg *rm_out) {
@@ -62,7 +63,7 @@ struct EncRun {
           int g = vorbis_encode_ctl(&vi, OV_ECTL_RATEMANAGE2_GET, &rm); h.i64(g);
           if (!g) {
             if (e.reservoir >= 0) rm.bitrate_limit_reservoir_bits = e.reservoir;
-            if (e.bias >= 0) rm.bitrate_limit_reservoir_bias = e.bias;
+            if (e.bias > -999) rm.bitrate_limit_reservoir_bias = e.bias;
             int s = vorbis_encode_ctl(&vi, OV_ECTL_RATEMANAGE2_SET, &rm); h.i64(s);
             vorbis_encode_ctl(&vi, OV_ECTL_RATEMANAGE2_GET, &rm);
             if (rm_out) *rm_out = rm;
@@ -106,6 +107,11 @@ struct EncRun {
       int blocks = 0;
       while ((all || !s.one || blocks == 0) && vorbis_analysis_blockout(&vd, &vb) == 1) {
         blocks++; sim_tick("block");
+        if (s.direct && !stub && !vorbis_bitrate_managed(&vb)) {
+          ogg_packet dp; int ar = vorbis_analysis(&vb, &dp); check(ar == 0, "vorbis_analysis", "direct-packet-failed", fmt("ret=%d", ar));
+          if (ar == 0) { Pkt p = pkt_from_op(dp); p.bs = vb.W ? out.bs1 : out.bs0; out.audio.push_back(std::move(p)); g_stats.inc("probe.direct_packets"); }
+          continue;
+        }
         if (!stub) vorbis_analysis(&vb, NULL);
         else {   // stub analysis stage: seeded candidate sizes, non-decreasing in the blob index, written straight into the block's packet blobs
           vorbis_block_internal *vbi = (vorbis_block_internal *)vb.internal; long unit = out.bs1 / out.bs0; long scale = vb.W ? unit : 1;
@@ -144,7 +150,7 @@ struct EncRun {
     const Rec *er = plan.first("enc"); const Rec *sr_ = plan.first("sched"); if (!er) return;
     EncSetup es = setup_from(*er); Recipe sigr; sigr.ch = std::min(es.ch, 8); sigr.rate = es.rate; sigr.sig = (int)er->i("sig", 0); sigr.seed = er->u("seed", 1); sigr.mute = (int)er->i("mute", 0);
     int64_t N = er->i("n", 1000);
-    Sched s; if (sr_) { s.part = (int)sr_->i("part", 1); s.pk = (int)sr_->i("k", 1024); s.pseed = sr_->u("pseed", 1); s.drain = (int)sr_->i("drain", 0); s.m = (int)sr_->i("m", 1); s.one = (int)sr_->i("one", 0); }
+    Sched s; if (sr_) { s.part = (int)sr_->i("part", 1); s.pk = (int)sr_->i("k", 1024); s.pseed = sr_->u("pseed", 1); s.drain = (int)sr_->i("drain", 0); s.m = (int)sr_->i("m", 1); s.one = (int)sr_->i("one", 0); s.direct = (int)sr_->i("direct", 0); }
     EncOut eo; encode(sigr, es, N, s, eo, nullptr, false, 0, 0);
     if (eo.rejected) return;
     nontrivial = N > 0 && eo.nwrites >= 2;
@@ -319,6 +325,7 @@ struct EncGen {
       for (auto &r : p.recs) if (r.type == "enc") r.set("n", N);   // (`e` does not survive p.add)
       p.recs.back().setu("pseed", g.below(100000));
       p.recs.back().set("drain", (int64_t)g.below(3)).set("m", (int64_t)g.range(1, 40)).set("one", (int64_t)g.below(2));
+      if (g.chance(0.3)) p.recs.back().set("direct", 1);
       int pol = (int)g.below(6); p.add("mux").set("pol", pol).set("k", pol == 1 ? (int64_t)g.range(1, 12) : pol == 4 ? (int64_t)g.range(1, 6) : pol == 5 ? (int64_t)g.range(200, 3000) : 4).set("serial", (int64_t)g.below(1 << 30));
       p.add("file").set("rdpol", (int64_t)g.below(5)).set("rdk", (int64_t)g.range(1, 3000)).setu("rdseed", g.below(100000));
     } else if (c.prop == "C14") {
@@ -334,6 +341,7 @@ struct EncGen {
       if (lim != 3 && g.chance(0.3)) e.set("nom", -1);
       double u = g.unit(); e.set("resv", u < 0.2 ? (int64_t)g.range(0, 4000) : u < 0.6 ? (int64_t)g.range(4000, 60000) : (int64_t)g.range(60000, 2 * nom)).setf("bias", g.chance(0.2) ? (g.chance(0.5) ? 0.0 : 1.0) : g.unit());
       if (g.chance(0.12)) { static const int64_t tiny[] = {0, 1, 8, 64, 128, 512, 1024}; e.set("resv", tiny[g.below(7)]); }
+      if (g.chance(0.05)) { static const double ob[] = {-1.0, -0.01, 1.01, 2.0}; e.setf("bias", ob[g.below(4)]); }   // outside [0,1]: the control interface has to refuse it (whatever it accepts, the limits in force must hold)
       if (g.chance(0.25)) { e.set("how", lim == 3 ? 3 : 2); e.erase("resv"); e.erase("bias"); if (lim == 3 && e.i("nom") <= 0) e.set("nom", nom); }   // limits handed straight to vorbis_encode_init, default reservoir
       bool stub = g.chance(0.5); e.set("stub", stub ? 1 : 0);
       if (stub) { e.set("pat", (int64_t)g.below(5)).setu("stubseed", g.below(100000)).set("sig", g.chance(0.5) ? 2 : 3).set("n", (int64_t)g.range(rate * 2, rate * (thorough ? 40 : 12))); }
